@@ -524,7 +524,7 @@ func newFaultBackend(t *testing.T, storageType string) *faultBackend {
 			b.realName, b.realPub = kr.KeyName, pub
 			break
 		}
-		if attempt >= 3 {
+		if attempt >= 8 {
 			t.Fatalf("harness: New on %s: %v", storageType, err)
 		}
 	}
@@ -633,6 +633,9 @@ func (c faultCase) label() string {
 		ks = append(ks, fmt.Sprint(c.K[i]))
 		ms = append(ms, c.Modes[i].Name)
 	}
+	if len(c.K) == 0 {
+		return "no request faulted"
+	}
 	return fmt.Sprintf("request %s answered with %s", strings.Join(ks, "+"), strings.Join(ms, "+"))
 }
 
@@ -713,10 +716,10 @@ func TestVerifC03Faults(t *testing.T) {
 		b := newFaultBackend(t, st)
 		takeLogs()
 		sig := "C03|faults|" + st
-		runCase := func(o fop, fc faultCase) {
+		runCase := func(o fop, fc faultCase) (requests int, opErr error) {
 			if o.prep != nil && !o.prep() {
 				r.NotExhaustive("a precondition of a faulted operation could not be established (store did not answer in time)")
-				return
+				return 0, fmt.Errorf("precondition: timeout")
 			}
 			takeLogs()
 			at := map[int]faultMode{}
@@ -725,7 +728,7 @@ func TestVerifC03Faults(t *testing.T) {
 			}
 			b.arm(at)
 			out, err, panicked := safely(o.run)
-			_, fr := b.disarm()
+			nreq, fr := b.disarm()
 			logs := takeLogs()
 			if panicked != "" {
 				r.Observation("panic-under-backend-fault:"+st+"|"+o.name, map[string]any{"case": fc, "panic": panicked})
@@ -734,6 +737,8 @@ func TestVerifC03Faults(t *testing.T) {
 			if len(fr) > 0 {
 				fired++
 				key = st + "|" + o.name + "|" + fmt.Sprint(fc.K) + "|" + fc.label()
+			} else if len(fc.K) == 0 {
+				key = st + "|" + o.name + "|unfaulted"
 			} else {
 				silent++
 			}
@@ -748,6 +753,7 @@ func TestVerifC03Faults(t *testing.T) {
 			judgeChannels(r, sig, o.name, where, fc, b.canaries(), map[string][]byte{
 				"returned-value": renderValue(out), "returned-error": renderErr(err), "log": logs})
 			b.prune()
+			return nreq, err
 		}
 		for _, o := range faultOps(b) {
 			if replay != nil && replay.Op != o.name {
@@ -757,27 +763,19 @@ func TestVerifC03Faults(t *testing.T) {
 				runCase(o, *replay)
 				continue
 			}
-			// unfaulted: count the requests of the operation
-			if o.prep != nil && !o.prep() {
-				t.Fatalf("harness: precondition of %s on %s", o.name, st)
+			// unfaulted: count the requests of the operation (and judge what it returns and logs like any other case)
+			n, err := runCase(o, faultCase{Backend: st, Op: o.name})
+			for attempt := 0; err != nil && attempt < 5; attempt++ {
+				// again (a loaded machine can exceed the client time-out)
+				n, err = runCase(o, faultCase{Backend: st, Op: o.name})
 			}
-			b.arm(nil)
-			_, err, _ := safely(o.run)
-			n, _ := b.disarm()
 			if err != nil {
-				// once more (a loaded machine can exceed the client time-out)
-				if o.prep != nil {
-					o.prep()
+				if es := err.Error(); strings.Contains(es, "deadline exceeded") || strings.Contains(es, "Timeout") || strings.Contains(es, "timeout") {
+					r.NotExhaustive("an unfaulted key-store operation did not get its answer within the client time-out six times in a row (machine load): its fault cases were skipped")
+					continue
 				}
-				b.arm(nil)
-				_, err, _ = safely(o.run)
-				n, _ = b.disarm()
-			}
-			if err != nil {
 				t.Fatalf("harness (vacuity guard): unfaulted %s on %s fails: %v", o.name, st, err)
 			}
-			b.prune()
-			takeLogs()
 			r.Bound("requests|"+st+"|"+o.name, n)
 			for k := 1; k <= n; k++ {
 				for _, m := range alphabet {
@@ -822,7 +820,7 @@ func TestVerifC03Faults(t *testing.T) {
 	if r.Expired() {
 		r.NotExhaustive("fault enumeration stopped by the wall-clock budget")
 	}
-	if replay == nil && (fired == 0 || failedOps == 0 || okOps == 0) {
+	if replay == nil && !r.Expired() && (fired == 0 || failedOps == 0 || okOps == 0) {
 		t.Fatalf("harness (vacuity guard): faulted cases=%d failed=%d ok=%d", fired, failedOps, okOps)
 	}
 	r.AddExtra("fault_cases_fired", int64(fired))
@@ -905,9 +903,18 @@ func fs2vaultFaults(t *testing.T, r *ev.Run, b *faultBackend, alphabet []faultMo
 	b.arm(nil)
 	out, err, _ := safely(run)
 	n, _ := b.disarm()
+	for attempt := 0; err != nil && attempt < 5; attempt++ {
+		b.arm(nil)
+		out, err, _ = safely(run)
+		n, _ = b.disarm()
+	}
 	logrus.SetLevel(logrus.TraceLevel)
 	console, _ := out.(string)
 	if err != nil || !strings.Contains(console, "pk3") {
+		if err != nil && (strings.Contains(err.Error(), "deadline exceeded") || strings.Contains(err.Error(), "imeout")) {
+			r.NotExhaustive("the unfaulted fs2vault command did not get its answers within the client time-out six times in a row (machine load): its fault cases were skipped")
+			return
+		}
 		t.Fatalf("harness (vacuity guard): unfaulted fs2vault fails: %v\n%s", err, console)
 	}
 	takeLogs()
@@ -1045,6 +1052,7 @@ func TestVerifC03NodeFaults(t *testing.T) {
 		"PEM block, in any HTTP response (status line, headers, problem+json body), in the node log at trace level incl. the audit log, or in a file of the data directory. A case = (back-end, API operation, k, answer)")
 	r.Bound("fault_answers", len(alphabet))
 	idx, fired, silent, refused := 0, 0, 0, 0
+	wedged := false
 	for _, st := range []string{"vaultkv", "external"} {
 		if replay != nil && replay.Backend != st {
 			continue
@@ -1168,6 +1176,7 @@ func TestVerifC03NodeFaults(t *testing.T) {
 			}
 		}
 		if n.wedged() {
+			wedged = true
 			r.Observation("node-stopped-answering", map[string]any{"backend": st})
 			r.NotExhaustive("a node stopped answering during the fault enumeration")
 		}
@@ -1186,7 +1195,7 @@ func TestVerifC03NodeFaults(t *testing.T) {
 	if r.Expired() {
 		r.NotExhaustive("fault enumeration stopped by the wall-clock budget")
 	}
-	if replay == nil && (fired == 0 || refused == 0) {
+	if replay == nil && !wedged && !r.Expired() && (fired == 0 || refused == 0) {
 		t.Fatalf("harness (vacuity guard): faulted cases=%d, cases answered with a problem document=%d", fired, refused)
 	}
 	r.AddExtra("fault_cases_fired", int64(fired))
